@@ -215,6 +215,35 @@ Proof.
   rewrite big_le32_is_le, encode_layout by assumption. auto.
 Qed.
 
+(* certificate level: with any number of claims, position i of every carrier holds the number of claim i *)
+Definition wf_triple (t : bool * N * N) : Prop := let '(_, r, l) := t in r < 2^32 /\ l < 2^32.
+Definition layout_of (t : bool * N * N) : N := let '(m, r, l) := t in (if m then 2^64 else r * 2^32) + l.
+Theorem consumers_of_claim_list (ts : list (bool * N * N)) : Forall wf_triple ts ->
+  map wire_gi ts = map (fun t => be 32 (layout_of t)) ts /\
+  map prover_gi ts = map (fun t => be 32 (layout_of t)) ts /\
+  map commit_gi ts = map (fun t => le 32 (layout_of t)) ts /\
+  map (fun t => optimistic_gi (enc3 t)) ts = map (fun t => le 32 (layout_of t)) ts /\
+  map (fun t => of_be (wire_gi t)) ts = map layout_of ts /\
+  map (fun t => of_be (prover_gi t)) ts = map layout_of ts /\
+  map (fun t => of_le (commit_gi t)) ts = map layout_of ts.
+Proof.
+  intros Hwf.
+  assert (Hlt : forall t, wf_triple t -> layout_of t < 2^256).
+  { intros [[m r] l] [Hr Hl]. cbn [layout_of]. destruct m.
+    - apply N.lt_trans with (2^64 + 2^32); [lia|]. vm_compute. reflexivity.
+    - apply N.lt_trans with (2^32 * 2^32 + 2^32); [nia|]. vm_compute. reflexivity. }
+  repeat split; apply map_ext_in; intros t Ht; rewrite Forall_forall in Hwf; specialize (Hwf t Ht);
+    pose proof (Hlt t Hwf) as Hv; destruct t as [[m r] l]; destruct Hwf as [Hr Hl];
+    destruct (consumers_of_triple m r l Hr Hl) as (Hw & Hp & Hc); cbn [layout_of] in *.
+  - exact Hw.
+  - exact Hp.
+  - exact Hc.
+  - unfold optimistic_gi, enc3. rewrite big_le32_is_le, encode_layout by assumption. reflexivity.
+  - rewrite Hw. apply of_be_be. exact Hv.
+  - rewrite Hp. apply of_be_be. exact Hv.
+  - rewrite Hc. apply of_le_le. exact Hv.
+Qed.
+
 (* non-canonical on-chain values: the decoder is lossy, characterised exactly *)
 Theorem noncanonical_lossy v : v < 2^256 -> ~ canonical v -> enc3 (decode v) <> v.
 Proof.
